@@ -356,6 +356,29 @@ func VerifC20Getters() {
 	tr := m.Tracers()
 	tr = append(tr, &TracerNoOp{})
 	vAssert("tracers-is-copy", len(m.tracers) == 0 && len(tr) == 1)
+	// deep copies: writing into the relation / tag lists of the returned schema, and into Tags()
+	m2 := New(nil, Schema{"A": {Require: S{"B"}, Tags: []string{"t1", "t2"}}, "B": {Add: S{"C"}, After: S{"C"}, Tags: []string{"x"}},
+		"C": {Remove: S{"A"}}}, &Opts{Tags: []string{"ta", "tb"}})
+	sc2 := m2.Schema()
+	sc2["A"].Tags[0] = "zed"
+	sc2["A"].Require[0] = "C"
+	sc2["B"].Add[0] = "A"
+	sc2["B"].After[0] = "A"
+	sc2["B"].Tags[0] = "zed"
+	sc2["C"].Remove[0] = "B"
+	in := m2.schema
+	vAssert("schema-lists-are-copies", in["A"].Tags[0] == "t1" && in["A"].Require[0] == "B" && in["B"].Add[0] == "C" &&
+		in["B"].After[0] == "C" && in["B"].Tags[0] == "x" && in["C"].Remove[0] == "A")
+	cl := in["A"].Clone()
+	cl.Tags[1] = "zed"
+	cl.Require[0] = "C"
+	vAssert("state-clone-is-deep", in["A"].Tags[1] == "t2" && in["A"].Require[0] == "B")
+	tg := m2.Tags()
+	if len(tg) > 0 {
+		tg[0] = "zed"
+	}
+	tg2 := m2.Tags()
+	vAssert("tags-is-copy", len(tg2) == 2 && tg2[0] == "ta")
 }
 
 // VerifC20When: every When* with nil and live contexts on a fresh subscription manager.
